@@ -45,7 +45,8 @@ TWO independent changes, A and B, to the module's non-test source (`*.go` outsid
 
 1. **breaks the property above** on some input / history / schedule,
 2. still compiles (`go build ./...`) and still passes the whole existing test suite
-   (`go test -vet=off -count=1 ./...`, 83 tests, unedited),
+   (`go test -vet=off -count=1 ./app/... ./keeper/... ./types/... .`, 83 tests, unedited; do not use `./...`
+   once `out/` holds test files, it lies inside the module),
 3. looks like something a developer could plausibly commit: a refactoring slip, an "optimisation", a
    misplaced brace, a well-meant "fix", a confused pair of similar helpers - small (a few lines, at most ~25),
 4. **needs something specific to manifest**: a particular interleaving of messages and block ends, a
@@ -65,7 +66,7 @@ parameter changes between steps, unusual address or name shapes.
 
 For each change also write a **demonstration**: one new Go test file (package `keeper_test` in `keeper/`,
 or package `service_test` in the repository root, using `simapp.Setup(false)` from
-`github.com/irismod/service/simapp` as the existing keeper tests do) with one test function whose name starts
+`github.com/irismod/service/app` (imported as `simapp`) as the existing keeper tests do) with one test function whose name starts
 with `TestSeeded{pid}` that **fails with the change applied and passes on the unmodified tree**. It must
 drive the real module code (handler / keeper / EndBlocker / genesis functions) and observe the broken property.
 
@@ -83,7 +84,9 @@ Create `{wt}/out/A/` and `{wt}/out/B/`, each with
 
 Before you finish, verify for each change, yourself: clean tree -> demo passes; apply patch -> `go build ./...`
 ok, full suite passes, demo fails. Then leave the worktree clean (`git checkout -- .`, delete the demo test
-file from the source tree; `out/` stays). `out/` is untracked - do not commit anything.
+file from the source tree; `out/` stays). `out/` is untracked - do not commit anything. Never use `git stash`
+(the stash is shared between worktrees and other people work in sibling worktrees); use `git apply` / `git apply -R`
+/ `git checkout -- .` only.
 Report briefly what A and B are.
 """
 open(os.path.join(wt, "TASK.md"), "w").write(t)
